@@ -259,5 +259,25 @@ pub assume_specification [usize::from_str_radix] (s: &str, radix: u32) -> (r: Re
         r is Ok ==> r->Ok_0 as int == text_value(n@, 10) % 0x100000,       //# C17 number.accepted_with_its_value
 //@end
 
+//@action src/lib/preprocessor/preprocessor.rs s_byte_num = u_byte_num as nm_pp_s_byte_num_cast
+//@contract
+//@dropunused
+    ensures r as u8 == n, //# C14,C11 number.unsigned_literal_keeps_its_bit_pattern
+//@before n as i8 :: proof { assert((n as i8) as u8 == n) by (bit_vector); }
+//@end
+
+//@action src/lib/preprocessor/preprocessor.rs s_word_num = u_word_num as nm_pp_s_word_num_cast
+//@contract
+//@dropunused
+    ensures r as u16 == n, //# C14,C11 number.unsigned_literal_keeps_its_bit_pattern
+//@before n as i16 :: proof { assert((n as i16) as u16 == n) by (bit_vector); }
+//@end
+
+//@action src/lib/preprocessor/preprocessor.rs raw_addr = offset as nm_pp_raw_addr_offset
+//@contract
+//@dropunused
+    ensures r == o, //# C14,C11 number.offset_is_the_address_as_it_stands
+//@end
+
 } // verus!
 fn main() {}
